@@ -443,12 +443,16 @@ class ChunkSeq(Grid):
         n, c = self.n, self.c
         if isinstance(n, int) and isinstance(c, int):
             return 1 if n == 0 else -(-n // c)
+        if isinstance(n, int) and n <= 1:
+            return 1  # an extent of 0 or 1 is a single block whatever the (positive) chunk size
         if self.nb is None:
             cached = _NB_CACHE_get(n, c)
             if cached is not None:
                 self.nb = cached
             elif isinstance(c, int) and c == 1:
                 self.nb = _ite(tz(n) == 0, 1, n)
+            elif sym.cur().entails(tz(n) <= 1):
+                return 1  # on this path the extent is 0 or 1: a single block
             else:
                 ctx = sym.cur()
                 nb = ctx.fresh_int("nb")
